@@ -113,9 +113,10 @@ func (sc scenario) build() (func(), func(*vsched.Exec) string, func() string) {
 		cancelled := make([]bool, total)
 		released := false
 		sent := false
+		var owed []int
 		phase := "A"
 		key = func() string {
-			k := fmt.Sprintf("%s sent=%v rel=%v|", phase, sent, released)
+			k := fmt.Sprintf("%s sent=%v rel=%v owed=%v|", phase, sent, released, owed)
 			for i, w := range ws {
 				if w == nil {
 					k += "-;"
@@ -173,8 +174,16 @@ func (sc scenario) build() (func(), func(*vsched.Exec) string, func() string) {
 			vsched.SetTimeHorizon(int64(5 * time.Second)) // every connected client's next ping may fire
 		}
 		phase = "B"
+		// owed[i]: broadcasts that started after client i's stream was open for the browser (its first ping had been
+		// flushed); a client that stays connected must receive all of them, whenever it connected
+		owed = make([]int, len(ws)+1)
 		vsched.GoNamed("broadcaster", func() {
 			for k := 0; k < sc.sends; k++ {
+				for i, w := range ws {
+					if w != nil && w.pings() >= 1 {
+						owed[i]++
+					}
+				}
 				h.Send("message", "reload")
 			}
 			sent = true
@@ -211,6 +220,15 @@ func (sc scenario) build() (func(), func(*vsched.Exec) string, func() string) {
 		}
 		if sc.stopAfterB {
 			return
+		}
+		for i, w := range ws {
+			if w == nil || cancelled[i] || (sc.stalled && i == sc.cancel) || i >= len(owed) {
+				continue
+			}
+			if got := w.reloads(); got < owed[i] {
+				msg = fmt.Sprintf("LOST client %d had its stream open (first event flushed) before %d broadcast(s) started and stayed connected, but received %d reload event(s)", i, owed[i], got)
+				return
+			}
 		}
 		// phase C: release the stalled reader, disconnect everyone
 		released = true
